@@ -411,10 +411,15 @@ func accept(c Case, h []event, final bool) *result {
 				if tws {
 					closeExpect(i, "subscribe for an id that is still live", 4409, true, false)
 				}
-				if f.xs != 0 {
-					bad(f.xs, "", "a second operation started executing for id %q (message #%d) while the operation of message #%d with the same id was live", m.ID, i, live.m)
+				if f.xs == 0 {
+					return
 				}
-				return
+				bad(f.xs, "", "a second operation started executing for id %q (message #%d) while the operation of message #%d with the same id was live", m.ID, i, live.m)
+				// Follow the server from here on: the operation it started is the id's current one
+				// (the instance is created below), so that what is written for the id afterwards
+				// is judged, and attributed, against the operation it really belongs to. This
+				// happens on the unchanged tree when a cancelled query's deferred Cancel(id) has
+				// unregistered the operation that re-used its id (C19-emit-after-client-complete).
 			case refusedBy != 0 && maybeLive[m.ID]:
 				res.label("gws-maybe-live-refused")
 				return
@@ -629,7 +634,13 @@ func accept(c Case, h []event, final bool) *result {
 					if !pbt.IsKnown(fFailed) && (x.xp == 0 || x.xp > facts[curMsg].rseq) {
 						res.inconclusive = "client complete raced with the end of a failed subscription"
 					}
-				} else if fd == "" || x.termSeq < facts[curMsg].rseq {
+				} else if rs := facts[curMsg].rseq; polluted[e.ID] == "" && (x.op != "subscription" && x.xp != 0 && x.xp < rs || x.cancelSeq != 0 && x.cancelSeq < rs) {
+					// C19-stop-completes-unconditionally, narrowly: the id's last operation had ended
+					// AND the engine was done with it (a query/mutation returned to the pool, or an
+					// operation the client had already completed) when this complete arrived, so
+					// nothing was registered that StopSubscription could have stopped. On an id whose
+					// state already diverged (an earlier attributed violation) the knock-on rule
+					// applies instead.
 					fd = fStop
 				}
 			}
